@@ -60,6 +60,8 @@ impl Property for C13 {
         });
         let fmat = || prop_oneof![
             [dyadic(), dyadic(), dyadic(), dyadic(), dyadic(), dyadic()],
+            // small integers times one power of two (uniformly tiny / huge scalings): the determinant is exact
+            ([-8i32..9, -8i32..9, -8i32..9, -8i32..9, -8i32..9, -8i32..9], -40i32..41).prop_map(|(m, k)| { let s = 2f64.powi(k); [m[0] as f64 * s, m[1] as f64 * s, m[2] as f64, m[3] as f64 * s, m[4] as f64 * s, m[5] as f64] }),
             [-10.0f64..10.0, -10.0f64..10.0, -100.0f64..100.0, -10.0f64..10.0, -10.0f64..10.0, -100.0f64..100.0],
         ];
         prop_oneof![
@@ -67,7 +69,7 @@ impl Property for C13 {
                 .prop_map(|(chain, pts)| Case::IntAlgebra { chain, pts }),
             2 => (proptest::collection::vec(fmat(), 1..7), proptest::collection::vec((-100.0f64..100.0, -100.0f64..100.0), 1..5))
                 .prop_map(|(chain, pts)| Case::FloatAlgebra { chain, pts }),
-            3 => (geom_strategy(), 0u8..12, prop_oneof![dyadic(), -720.0f64..720.0], prop_oneof![dyadic(), -80.0f64..80.0], (dyadic(), dyadic()))
+            3 => (geom_strategy(), 0u8..36, prop_oneof![dyadic(), -720.0f64..720.0], prop_oneof![dyadic(), -80.0f64..80.0], (dyadic(), dyadic()))
                 .prop_map(|(g, kind, p1, p2, origin)| Case::Traits { g, kind, p1, p2, origin }),
             5 => (pair_strategy(), xf_strategy(), (-2i64..16, -2i64..16)).prop_map(|(Pair { a, b }, xf, q)| Case::Commute { a, b, xf, q }),
         ]
@@ -167,7 +169,11 @@ impl Property for C13 {
                 obs.expect(close(&many, &acc, 1e-12 * bound * 4.0), "compose_many<f64>|differs-from-fold", || format!("chain {:?}: {:?} vs {:?}", chain, many, acc));
                 for (m, t) in chain.iter().zip(ts.iter()) {
                     // dyadic entries with few bits: the determinant a*e - b*d is computed exactly
-                    let dy = m.iter().all(|v| (v * 16.0).fract() == 0.0 && v.abs() <= 64.0);
+                    // entries whose products are exact in f64: few-bit dyadics, or small integers times a common 2^k
+                    let lin = [m[0], m[1], m[3], m[4]];
+                    let maxl = lin.iter().fold(0.0f64, |s, v| s.max(v.abs()));
+                    let pow2 = if maxl > 0.0 { 2f64.powi(maxl.log2().floor() as i32 - 3) } else { 1.0 };
+                    let dy = m.iter().all(|v| (v * 16.0).fract() == 0.0 && v.abs() <= 64.0) || (maxl > 0.0 && lin.iter().all(|v| (v / pow2).fract() == 0.0 && (v / pow2).abs() <= 128.0));
                     let det = m[0] * m[4] - m[1] * m[3];
                     let inv = t.inverse();
                     if dy {
@@ -213,7 +219,9 @@ impl Property for C13 {
                     Some(Coord { x: (x0 + x1) / 2.0, y: (y0 + y1) / 2.0 })
                 };
                 let o = Coord { x: origin.0, y: origin.1 };
-                let k = kind % 12;
+                // forms 11..35: chained builders in every order of (translated, scaled, rotated, skewed)
+                let k = if kind % 36 >= 11 { 11 } else { kind % 36 };
+                let perm_sel = (kind % 36).saturating_sub(11) as usize;
                 obs.label(format!("trait-form:{k}"));
                 // expected map as a closure, and geo's result via the non-mut and the mut form
                 type F = Box<dyn Fn(Coord<f64>) -> Coord<f64>>;
@@ -249,9 +257,20 @@ impl Property for C13 {
                                 (Some(Box::new(move |p: Coord<f64>| t.apply(p))), crate::conv::IntoGeom::into_geom(x.affine_transform(&t)), crate::conv::IntoGeom::into_geom(y))
                             }
                             _ => {
-                                // chained builder forms equal the composition of the constructors
-                                let t = AffineTransform::translate(p2, 1.0).scaled(2.0, 0.5, o).rotated(p1, o).skewed(s1 / 4.0, 0.0, o);
-                                let u = AffineTransform::translate(p2, 1.0).compose(&AffineTransform::scale(2.0, 0.5, o)).compose(&AffineTransform::rotate(p1, o)).compose(&AffineTransform::skew(s1 / 4.0, 0.0, o));
+                                // chained builder forms equal the composition of the constructors, in every order
+                                // (the builders must compose with the WHOLE current matrix, off-diagonal terms included)
+                                const PERMS: [[usize; 4]; 24] = [[0,1,2,3],[0,1,3,2],[0,2,1,3],[0,2,3,1],[0,3,1,2],[0,3,2,1],[1,0,2,3],[1,0,3,2],[1,2,0,3],[1,2,3,0],[1,3,0,2],[1,3,2,0],
+                                    [2,0,1,3],[2,0,3,1],[2,1,0,3],[2,1,3,0],[2,3,0,1],[2,3,1,0],[3,0,1,2],[3,0,2,1],[3,1,0,2],[3,1,2,0],[3,2,0,1],[3,2,1,0]];
+                                let mut t = AffineTransform::<f64>::identity();
+                                let mut u = AffineTransform::<f64>::identity();
+                                for op in PERMS[perm_sel % 24] {
+                                    match op {
+                                        0 => { t = t.translated(p2, 1.0); u = u.compose(&AffineTransform::translate(p2, 1.0)); }
+                                        1 => { t = t.scaled(2.0, 0.5, o); u = u.compose(&AffineTransform::scale(2.0, 0.5, o)); }
+                                        2 => { t = t.rotated(p1, o); u = u.compose(&AffineTransform::rotate(p1, o)); }
+                                        _ => { t = t.skewed(s1 / 4.0, 0.0, o); u = u.compose(&AffineTransform::skew(s1 / 4.0, 0.0, o)); }
+                                    }
+                                }
                                 let mut y = x.clone(); y.affine_transform_mut(&u);
                                 (Some(Box::new(move |p: Coord<f64>| t.apply(p))), crate::conv::IntoGeom::into_geom(x.affine_transform(&t)), crate::conv::IntoGeom::into_geom(y))
                             }
